@@ -27,9 +27,15 @@ type Case struct {
 	PointClass string   `json:"pointClass"` // how the points were drawn (informative)
 	Secret     string   `json:"secret"`     // "keygen" | "uniform"
 
-	// NewCombiner(params, own, others, t): which parties party i lists as `others`, in which order
-	// (always a superset of all parties but itself; its own index may or may not be listed).
+	// NewCombiner(params, own, others, t): the order in which party i lists all N parties as `others`. Every party
+	// builds TWO long-lived combiners from it: one whose list contains its own point and one without it.
 	Others [][]int `json:"others"`
+
+	// Epochs > 1: the same Thresholdizer and Combiner instances serve a second setup with fresh secrets, with the
+	// aggregated-share receivers still holding the first epoch's data. ReuseOut: one receiver per party for all its
+	// setup shares / additive shares (always holding the previous result when it is written).
+	Epochs   int  `json:"epochs,omitempty"`
+	ReuseOut bool `json:"reuseOut,omitempty"`
 
 	// setup: order in which recipient j aggregates the shares of the senders, and how
 	// (0: acc = acc+share as lattigo's own test; 1: acc = share+acc; 2: pairwise tree into fresh shares).
@@ -51,6 +57,13 @@ type Case struct {
 	ConseqList int     `json:"conseqList,omitempty"`
 	Level      int     `json:"level,omitempty"`
 	Smudge     float64 `json:"smudge,omitempty"`
+	// Evk: the consequence check also generates a relinearization key and a Galois key (element 5^GalK, or the
+	// conjugation 2N-1 when GalK < 0) with the t shares and with the N secrets.
+	Evk  bool `json:"evk,omitempty"`
+	GalK int  `json:"galK,omitempty"`
+
+	// unjudged probes (behaviour outside the statement, recorded as classes only)
+	Probe bool `json:"probe,omitempty"`
 }
 
 func (c Case) RandSeed() uint64 { return c.Seed }
@@ -356,6 +369,9 @@ func genCase(t *rapid.T) Case {
 	}
 	c.Seed = rapid.Uint64().Draw(t, "seed")
 	c.N = []int{1, 2, 3, 4, 5, 6, 6, 5, 4, 3, 6, 5, 4, 3, 2}[rapid.IntRange(0, 14).Draw(t, "n")]
+	if h.Thorough() && rapid.IntRange(0, 4).Draw(t, "bigN") == 0 {
+		c.N = rapid.IntRange(7, 8).Draw(t, "n78")
+	}
 	switch rapid.IntRange(0, 9).Draw(t, "tk") {
 	case 7:
 		c.T = c.N - 1
@@ -380,21 +396,17 @@ func genCase(t *rapid.T) Case {
 	c.AggOrder = make([][]int, c.N)
 	c.AggMode = make([]int, c.N)
 	for i := 0; i < c.N; i++ {
-		perm := drawPerm(t, c.N, fmt.Sprintf("others%d", i))
-		if !rapid.Bool().Draw(t, fmt.Sprintf("listOwn%d", i)) {
-			var o []int
-			for _, v := range perm {
-				if v != i {
-					o = append(o, v)
-				}
-			}
-			perm = o
-		}
-		c.Others[i] = perm
+		c.Others[i] = drawPerm(t, c.N, fmt.Sprintf("others%d", i))
 		c.AggOrder[i] = drawPerm(t, c.N, fmt.Sprintf("agg%d", i))
 		c.AggMode[i] = rapid.IntRange(0, 2).Draw(t, fmt.Sprintf("aggMode%d", i))
 	}
 	c.Serial = rapid.IntRange(0, 3).Draw(t, "serial") == 0
+	c.Epochs = 1
+	if rapid.IntRange(0, 2).Draw(t, "epochs") == 2 {
+		c.Epochs = 2
+	}
+	c.ReuseOut = rapid.Bool().Draw(t, "reuseOut")
+	c.Probe = rapid.IntRange(0, 3).Draw(t, "probe") == 0
 
 	capAll := 400
 	if h.Thorough() {
@@ -439,6 +451,10 @@ func genCase(t *rapid.T) Case {
 		c.ConseqList = rapid.IntRange(0, nl-1).Draw(t, "conseqList")
 		c.Level = rapid.IntRange(0, len(c.Params.Q)-1).Draw(t, "level")
 		c.Smudge = []float64{0, 3.2, 1 << 10, 1 << 20}[rapid.IntRange(0, 3).Draw(t, "smudge")]
+		if rapid.IntRange(0, 1).Draw(t, "evk") == 0 {
+			c.Evk = true
+			c.GalK = rapid.IntRange(-1, 6).Draw(t, "galK")
+		}
 	}
 	return c
 }
